@@ -472,6 +472,9 @@ namespace sim
 
 		io_context* m_ios;
 		asio::high_resolution_timer m_timer;
+		// expires with this object: a wake-up that was already queued when the
+		// resolver was destroyed must not touch it
+		std::shared_ptr<bool> m_alive = std::make_shared<bool>(true);
 		using queue_t = aux::noexcept_movable<std::vector<result_t>>;
 
 		queue_t m_queue;
